@@ -309,12 +309,18 @@ def run_shard(ctx, spec):
         for gi, g in enumerate(all_digraphs(n)):
             if gi % nshards != idx:
                 continue
-            lines = ["module M"]
-            for i in range(n):
-                bases = [b for a, b in g if a == i]
-                lines.append("interface I%d%s { op%d() }" % (i, (" : " + ", ".join("I%d" % b for b in bases)) if bases else "", i))
-            items.append(("\n".join(lines) + "\n", n, g))
-            ctx.note_case(("inh", n, tuple(g)), nontrivial=bool(g))
+            # with an operation per interface (all_inherited_operations is exercised) and with empty interfaces (nothing
+            # but the loop itself can be at fault), in source order and reversed
+            for variant in ("ops", "empty", "empty-reversed"):
+                lines = []
+                for i in range(n):
+                    bases = [b for a, b in g if a == i]
+                    body = " op%d() " % i if variant == "ops" else ""
+                    lines.append("interface I%d%s {%s}" % (i, (" : " + ", ".join("I%d" % b for b in bases)) if bases else "", body))
+                if variant == "empty-reversed":
+                    lines.reverse()
+                items.append(("\n".join(["module M"] + lines) + "\n", n, g))
+                ctx.note_case(("inh", n, tuple(g), variant), nontrivial=bool(g))
         # one case per request batch of modest size: a stack overflow kills the worker and is attributed to its case
         for k in range(0, len(items), 200):
             run_batch(ctx, items[k:k + 200], lambda it, r: judge_inherit(ctx, it[0], it[1], it[2], r))
